@@ -44,6 +44,24 @@ CHECKS = {
             'just by the result. Exploration: the space of bodies is unbounded.',
             'Trusts the reference interpreter and the independent validator (both calibrated on the spec suite: 20k assertions, '
             '1280 invalid modules rejected).', 'DESIGN.md section 7 C03'),
+    'C04': ('F1 end-to-end (wasmkit + refinterp + cexec)',
+            'PBT: generated call graphs (imports with 0-8 mixed parameters, direct/indirect/recursive calls, element segments at '
+            'constant and imported-global offsets, imported tables), differential on results + ordered host trace (callee, '
+            'argument bits, instance tag) + table-slot identity probes',
+            'Generated-input search over modules with imports, forward references, bounded recursion and call_indirect through '
+            'defined and imported tables; the host functions print callee, argument bit patterns and the instance they received, '
+            'and every initialised table slot is probed for the function it holds; all compared with the reference interpreter.',
+            'Trusts the reference interpreter; indirect calls only use initialised slots of the right signature (by construction).',
+            'DESIGN.md section 7 C04'),
+    'C05': ('F1 end-to-end (wasmkit + refinterp + cexec)',
+            'PBT over call histories: generated accessor module + in-bounds history (loads/stores at every alignment, grow with '
+            'boundary deltas, overlapping copy, fill, init), byte-array model compared after every step (result, pages, CRC32) '
+            'incl. ASan/UBSan and dirty-heap runs',
+            'Model-based history search: after every call the result and the whole memory (pages + CRC32 through the exported-'
+            'memory accessor, plus byte dumps) must equal a bytearray model; memories defined/imported/shared, with and without '
+            'maximum (incl. max=min=0); builds include -fsanitize=address,undefined and a perturbed heap so that missing zeroing '
+            'or overlapping memcpy become visible. The no-wrap clause of the effective address is not decidable in bounds.',
+            'Trusts the model in vf/interp.py; successful grows are only demanded up to 64 pages.', 'DESIGN.md section 7 C05'),
 }
 
 NOT_YET = {}
